@@ -27,7 +27,8 @@ MAGIC_WORDS = [
 ATTRS = [
     "", ' class="a"', " id=x", " style='b c'", ' a="1" b=2', " x", ' q="',
     " a=\"it's\"", " a='q\"r'", ' data-x="y|z"', " lang=fi", ' a = "b" ',
-    "\nclass=n",
+    "\nclass=n", ' class="{{t}}"', ' title="[[a|b]]"', ' id="x<nowiki/> "',
+    " a={{{1}}}", ' b="[x]"', ' c="<nowiki>n</nowiki>"', " d=[http://x.y z]",
 ]
 
 STRUCT = [
@@ -41,6 +42,19 @@ STRUCT = [
     "[http://x.org t]", "[//x.org]", "[mailto:a@b c]", "//x", "ftp://h/p",
     "#if:", "#ifeq:", "#switch:", "#invoke:", "#expr:", "#tag:", "PAGENAME",
     "lc:", "subst:", "#", "!=", "=a", "a=", "1=", "|a=b", "|1=",
+]
+
+# composite tokens: short well-formed shapes that random single tokens almost
+# never assemble (an argument that is exactly one placeholder-bearing token,
+# empty nowiki spans, bracketed non-URL text, ...)
+COMPOSITE = [
+    "[x]", "[foo bar]", "[1]", "<nowiki/>", "<nowiki />", "<nowiki></nowiki>",
+    "<nowiki>[[a]]</nowiki>", "{{t|", "{{t|[x]|y}}", "|[x]|", "|<nowiki/>|",
+    "{{#if:", "{{#if:[x]|a|b}}", "[[a|", "[[a|[x]|c]]", "{{{p|", "{{{[x]|b}}}",
+    "{{t|<nowiki/>|y}}", "{{t||}}", "{{t|a=[x]|b}}", "[[a]]b", "[[a|b]]c",
+    "{{!}}", "{{=}}", "{{t|{{{1}}}}}", "{{{1|{{t}}}}}", "[http://x.org [x]]",
+    "[[File:a.png|thumb|[x]]]", "''" + "'[x]'" + "''", "<span>[x]</span>",
+    "|-\n|[x]", ";a:b", ";a\n:b", "*[x]", "= [x] =", "{|\n|+[x]\n|}",
 ]
 
 TEXT = [
@@ -78,6 +92,7 @@ def token():
         st.sampled_from(STRUCT),
         st.sampled_from(TEXT),
         st.sampled_from(TAGS),
+        st.sampled_from(COMPOSITE),
         tag_with_attrs(),
         st.sampled_from(MAGIC_WORDS),
     )
